@@ -214,9 +214,14 @@ pub fn run(tape: &[u8], ctx: &mut Ctx) {
 			for via_reader in [false, true] {
 				evals += 1;
 				let how = if via_reader { "reader" } else { "slice" };
-				let r = if via_reader { read_bufread(&env, &h.case.schema, ChunkedReader::uniform(&bad, chunk), &cfg, max_calls) } else { read_slice(&env, &h.case.schema, &bad, &cfg, max_calls) };
+				let r = if via_reader { read_bufread(&env, &h.case.schema, ChunkedReader::uniform(&bad, chunk), &cfg, max_calls + 8) } else { read_slice(&env, &h.case.schema, &bad, &cfg, max_calls + 8) };
 				let Ok((nexts, _)) = r else { continue };
 				let got = values_of(&nexts);
+				// "never an endless loop": a caller that keeps pulling reaches the end of a finite file
+				// (the damage adds at most 3 phantom objects, each worth one error)
+				if !nexts.iter().any(|n| matches!(n, Next::End)) {
+					ctx.violation(format!("C17/damaged-file-never-ends/{what}/{how}"), format!("schema {} {outline}: block {bi} {what}: {} calls and no end of stream: {:?}", h.case.json, nexts.len(), trunc(&format!("{nexts:?}"), 400)));
+				}
 				// never a value that was not written: returned values form an in-order subsequence
 				let mut wi = 0;
 				let mut ok = true;
@@ -286,7 +291,10 @@ pub fn run(tape: &[u8], ctx: &mut Ctx) {
 			// zero-byte elements legitimately runs up to max_seq_size (1e9 by default)
 			if via_reader {
 				let mut rd = ChunkedReader::uniform(&bad, chunk);
-				rd.call_budget = 50_000 + 200 * bad.len() as u64;
+				// (a corrupted element count over zero-byte elements makes the deserializer poll an exhausted
+				// block once per element until the digest's event budget stops it: reads are bounded by
+				// the input length plus a constant per event, like in C04)
+				rd.call_budget = 50_000 + 200 * bad.len() as u64 + 4 * 200_000 * max_calls as u64;
 				let exceeded;
 				{
 					let r = serde_avro_fast::object_container_file_encoding::Reader::from_reader(&mut rd);
